@@ -208,6 +208,8 @@ func anchorScenario(o anchorOpts) *Scenario {
 		)
 	}
 	if o.purchases {
+		// the in-place software upgrade moves limits and fees from x/params into the module stores
+		add(upgradeAct())
 		add(
 			purAct("wpur(W1,#1,0)", model.WrkPur, "W1", 1, 0, ""),
 			purAct("wpur(W1,#1,1)", model.WrkPur, "W1", 1, 1, ""),
